@@ -482,7 +482,8 @@ class Engine:
     def st_Expr(self, s, st):
         if isinstance(s.value, ast.Constant):
             return [('next', st)]       # docstring
-        if isinstance(s.value, (ast.YieldFrom, ast.Await)):
+        if isinstance(s.value, ast.Await) or (isinstance(s.value, ast.YieldFrom)
+                                              and not self.contract.opts.get('generator_trace')):
             raise Unsupported(s, 'generator/coroutine')
         return self._expr_then(self.eval(s.value, st), lambda st, v: [('next', st)])
 
@@ -2432,7 +2433,20 @@ class Engine:
         return out
 
     def ex_YieldFrom(self, e, st):
-        raise Unsupported(e, 'yield from')
+        """`r = yield from g` in a generator body (contract opts in): one ghost event
+        ('yield-from', g); what g yields is g's business (its own contract), r is the value g
+        returns: unknown here.  An exception raised inside g is not modelled."""
+        if not self.contract.opts.get('generator_trace'):
+            raise Unsupported(e, 'yield from')
+        out = []
+        for st1, v in self.eval(e.value, st):
+            if isinstance(v, Raised):
+                out.append((st1, v))
+                continue
+            r = V('obj', oid='returned!%d' % next(self.counter))
+            st1.trace.append(('yield-from', v, r))
+            out.append((st1, r))
+        return out
 
     def ex_Await(self, e, st):
         raise Unsupported(e, 'await')
